@@ -287,26 +287,39 @@ class Monitor:
             s.yield_point()
 
 
-def install_locks():
-    """Re-binds the lock names the code under test looks up at call time."""
-    import collections
+_LOCK_TYPES = (type(threading.RLock()), type(threading.Lock()))
 
+
+def install_locks():
+    """Re-binds the lock names the code under test looks up at call time: the lock factories
+    (`RLock`, `Lock`) imported into runner_local / storage_base and every module-level lock object.
+    The per-invocation lock table itself is left as the code defines it (a dictionary, a cached
+    function, ...): it creates its locks through the re-bound factory."""
     from twosigma.memento import runner_local, storage_base
 
-    runner_local.RLock = SchedRLock
-    runner_local._memento_fn_mutex_lock = SchedRLock()
-    runner_local._memento_fn_mutex = collections.defaultdict(lambda: SchedRLock())
-    rebound = ["runner_local.RLock", "runner_local._memento_fn_mutex_lock", "runner_local._memento_fn_mutex"]
-    for name in ("RLock", "Lock"):
-        if hasattr(storage_base, name):
-            setattr(storage_base, name, SchedRLock)
-            rebound.append("storage_base." + name)
+    rebound = []
+    for mod in (runner_local, storage_base):
+        short = mod.__name__.rsplit(".", 1)[-1]
+        for name, val in list(vars(mod).items()):
+            if name in ("RLock", "Lock") and val is not SchedRLock:
+                setattr(mod, name, SchedRLock)
+                rebound.append("%s.%s" % (short, name))
+            elif isinstance(val, _LOCK_TYPES):
+                setattr(mod, name, SchedRLock())
+                rebound.append("%s.%s" % (short, name))
+    reset_mutexes()
     return rebound
 
 
 def reset_mutexes():
-    import collections
-
+    """Empties the per-invocation lock table, whatever its form, so that locks made for an earlier
+    run (and its scheduler) are not met again."""
     from twosigma.memento import runner_local
 
-    runner_local._memento_fn_mutex = collections.defaultdict(lambda: SchedRLock())
+    for name, val in list(vars(runner_local).items()):
+        if not name.startswith("_memento_fn_mutex"):
+            continue
+        if isinstance(val, dict):
+            val.clear()
+        elif callable(getattr(val, "cache_clear", None)):
+            val.cache_clear()
